@@ -37,6 +37,10 @@ CHECKS['C20'] = dict(level='other',
    text='Deductive: for FileLock.write_lock/read_lock the critical section is entered only while the lock file is held and a granted lock is released on every exit of the context manager (normal, TimeoutError, exception or cancellation out of the critical section); count bookkeeping of _AsyncioReadWriteLock._acquire_read/_release_read; the release path has no suspension. Bounded: mutual exclusion, absence of deadlock and usability after any single cancellation are checked by exhaustive schedule exploration of the real coroutines for task sets of 2..4 tasks (asyncio.Lock replaced by a stated model), FileLock on a real directory.',
    note='Exclusion under all interleavings is bounded (small task sets, <= 200000 schedules per program), not proved; asyncio.Lock is modelled (FIFO, no hand-over); O_EXCL exclusivity assumed; the threading variant is not covered.',
    ref='6 C20', technique='contract-based deductive verification (pyvc, z3) of release-on-every-exit and bookkeeping; bounded stand-in: exhaustive schedule exploration of the real coroutines')
+CHECKS['C19'] = dict(level='proof',
+   text='The ManageSieve dispatch loop is proved to reach FilterState.run (the only path to the script store) and UNAUTHENTICATE only with a state, AUTHENTICATE/STARTTLS only without one and for their own command, and to let no exception escape; the dict FilterSet operations are proved against the abstract (name -> bytes, active?) map with full frames, including that every refusal leaves the store unchanged, delete refuses the active name and rename keeps content and active status. Counter-models are rebuilt as real objects and replayed on CPython. A bounded comparison of the real server with a script-store model (before/after authentication, two users) is reported separately.',
+   note='FilterState.run (command -> FilterSet call mapping, response rendering) and per-user isolation through config.set_cache are covered by the bounded run only; script names are opaque values.',
+   ref='6 C19')
 NOT_YET = {}
 def main():
     props = [json.loads(l) for l in open(os.path.join(HERE, 'properties.jsonl'))]
